@@ -109,6 +109,7 @@ fn k_opponent_piece_mask() {
 }
 // @obl props=C01 tier=thorough kind=contract mem=20 est=600 timeout=3000
 // @uses GameState::curr_player_non_frozen_pieces GameState::threatened_pieces supported_pieces GameState::opponent_piece_mask
+// @keep k_threatened_pieces k_supported_pieces k_opponent_piece_mask
 // @fns GameState::curr_player_non_frozen_pieces
 // @clause in-place contract of curr_player_non_frozen_pieces (64-way) with the caller checked against the CONTRACTS of threatened_pieces, supported_pieces, opponent_piece_mask only (stub_verified), not their bodies
 #[kani::proof_for_contract(GameState::curr_player_non_frozen_pieces)]
